@@ -288,10 +288,10 @@ Lemma RI_lt s t u : RI s -> lookup t (registry s) = Some u -> (u < length (actor
 Proof. intros HR H. destruct (HR t u H) as (a & Ha & _). eapply get_lt; exact Ha. Qed.
 
 (* a new object that fails to register (the address is taken) is never reachable *)
-Lemma Inv_append_zombie s t self r inst :
-  Inv s -> lookup t (registry s) <> None -> Inv (set_actors s (actors s ++ [new_actor t self r inst])).
+Lemma Inv_append_dead s x :
+  Inv s -> a_st x = Terminated -> Inv (set_actors s (actors s ++ [x])).
 Proof.
-  intros (HR & HH2 & HH3 & HH4 & HH5) Ht. set (s2 := set_actors s (actors s ++ [new_actor t self r inst])).
+  intros (HR & HH2 & HH3 & HH4 & HH5) Ht. set (s2 := set_actors s (actors s ++ [x])).
   assert (Rg : registry s2 = registry s) by reflexivity.
   split; [|split; [|split; [|split]]].
   - intros t0 v H. rewrite Rg in H. destruct (HR t0 v H) as (a & Ha & Hta). exists a. split; [|exact Hta].
@@ -299,10 +299,10 @@ Proof.
   - intros c ac Hc Hreg Hp. unfold reg in Hreg. rewrite Rg in *. destruct (get_app_inv _ _ _ _ Hc) as [[Hlt Hc']|[-> ->]].
     + destruct (HH2 c ac Hc' Hreg Hp) as [E|(pu & pa & Hl & Hg & Hin)]; [left; exact E|right].
       exists pu, pa. split; [exact Hl|]. split; [|exact Hin]. unfold s2. rewrite get_app_old by (eapply get_lt; exact Hg). exact Hg.
-    + exfalso. cbn [a_tok new_actor] in Hreg. pose proof (RI_lt _ _ _ HR Hreg). lia.
+    + exfalso. pose proof (RI_lt _ _ _ HR Hreg). lia.
   - intros u a Hu. unfold reg. rewrite Rg. destruct (get_app_inv _ _ _ _ Hu) as [[Hlt Hu']|[-> ->]].
     + exact (HH3 u a Hu').
-    + right. right. repeat split.
+    + right. left. exact Ht.
   - destruct HH4 as (g & Hg & Tg & Sg). exists g. split; [|split; [exact Tg|exact Sg]].
     unfold s2. rewrite get_app_old by (eapply get_lt; exact Hg). exact Hg.
   - intros v Hv. rewrite Rg in Hv. apply HH5. exact Hv.
@@ -331,11 +331,11 @@ Proof.
   assert (Ru : regu u s -> regu u s1) by (apply regu_qk; apply qk_same; assumption).
   clear Ep HI Ha Hu. revert I1 Ha1 Hu1 Ru. generalize s1. clear s1 A1 R1. intros s1 I1 Ha1 Hu1 Ru.
   set (n := length (actors s1)). set (x := new_actor t self r inst). set (s2 := set_actors s1 (actors s1 ++ [x])).
-  assert (Rg2 : registry s2 = registry s1) by reflexivity. rewrite Rg2.
+  assert (Rg2 : registry s2 = registry s1) by reflexivity.
   destruct (lookup t (registry s1)) as [w|] eqn:Elt.
   - intros H; inversion H; subst. split.
-    + apply Inv_append_zombie; [exact I1|congruence].
-    + intros R0. destruct (Ru R0) as (b & Hb & Rb). exists b. split; [|exact Rb]. unfold s2. rewrite get_app_old by (eapply get_lt; exact Hb). exact Hb.
+    + apply Inv_append_dead; [exact I1|reflexivity].
+    + intros R0. destruct (Ru R0) as (b & Hb & Rb). exists b. split; [|exact Rb]. rewrite get_app_old by (eapply get_lt; exact Hb). exact Hb.
   - intros H.
     match type of H with stop_if_parent_gone ?s5 _ _ _ = _ => cut (Inv s5 /\ (regu u s -> regu u s5)) end.
     { intros [I5 R5]. destruct (Inv_stop _ _ _ _ _ _ _ H I5) as [I6 R6]. split; [exact I6|intros R0; apply R6; apply R5; exact R0]. }
